@@ -161,6 +161,10 @@ func entryLocksForMethod(db *lockDB, p *packages.Package, typeName string, fd *a
 			if !ok {
 				held = lockset.Set{}
 			}
+			// a deferred call runs when the caller returns: what is held then, not where the defer statement stands
+			if d, isDefer := db.m.Parent(p, call).(*ast.DeferStmt); isDefer && d.Call == call {
+				held = res.HeldByDeferred(d)
+			}
 			held = normSet(held, rv)
 			n++
 			if common == nil {
